@@ -488,8 +488,9 @@ class RefForms:
         e = math.gcd(a1, math.gcd(a2, m))
         a3 = a1 * a2 // (e * e)
         m1, m2, rhs = 2 * a1 // e, 2 * a2 // e, (D + b1 * b2) // (2 * e)
-        sols = [B for B in range(2 * a3)
-                if (B - b1) % m1 == 0 and (B - b2) % m2 == 0 and (m // e * B - rhs) % (2 * a3) == 0]
+        # search B = b1 mod m1 in one period of length 2 a3 (stepping through the first congruence)
+        sols = [B for B in range(b1 % m1, 2 * a3, m1)
+                if (B - b2) % m2 == 0 and (m // e * B - rhs) % (2 * a3) == 0]
         assert len(sols) == 1, (f, g, sols)
         B = sols[0]
         assert (B * B - D) % (4 * a3) == 0
